@@ -32,6 +32,7 @@ type PKICert struct {
 	URIs     []string `json:"uris"`
 	SerialOf string   `json:"serial_of,omitempty"` // reuse the serial number of this (earlier) certificate
 	Critical bool     `json:"critical_ext,omitempty"` // carries a critical extension nobody knows (private OID)
+	KeyOf    string   `json:"key_of,omitempty"`       // certified key = the key of this other certificate (a renewed or cross-signed certificate)
 }
 
 type PKISpec struct {
@@ -111,7 +112,11 @@ func BuildPKI(spec PKISpec) (map[string]*BuiltCert, error) {
 	out := map[string]*BuiltCert{}
 	now := time.Now()
 	for _, cs := range spec.Certs {
-		key, err := pkiKey(cs.Name, cs.KeyKind)
+		keyName := cs.Name
+		if cs.KeyOf != "" {
+			keyName = cs.KeyOf
+		}
+		key, err := pkiKey(keyName, cs.KeyKind)
 		if err != nil {
 			return nil, err
 		}
